@@ -405,6 +405,8 @@ def _drain(k, fs):
 
 def _same_exc(e, kind):
     m = make_exc(kind)
+    if isinstance(m, StopIteration) and isinstance(e, RuntimeError) and isinstance(e.__cause__, StopIteration):
+        e = e.__cause__  # asyncio cannot carry a StopIteration in a future: the async entry point chains it (as in C13)
     return type(e) is type(m) and e.args == m.args
 
 
